@@ -26,26 +26,36 @@ TRACE = 'Trace_C11'
 
 _ALL = '{"dict","idict","list","tuple","obj"}'
 TIERS = {
-    'quick': dict(Mutant='"none"', MaxSpine='1', LevelClasses=_ALL, LeafOpts='{"str","edict"}',
-                  SideOpts='{"absent","shared"}', Alpha='"small"', Alpha3='"p"',
+    'quick': dict(Mutant='"none"', MaxSpine='1', LevelClasses='{"dict","list","tuple","obj"}',
+                  LeafOpts='{"none","str","edict"}', SideOpts='{"shared"}', Alpha='"small"', Alpha3='"p"',
                   Profiles='{"plain","vals","miss","missval","missflag"}'),
-    'thorough': dict(Mutant='"none"', MaxSpine='2', LevelClasses=_ALL,
-                     LeafOpts='{"none","int","str","edict","elist","fset"}',
-                     SideOpts='{"absent","shared","empty"}', Alpha='"small"', Alpha3='"p"',
+    'thorough': dict(Mutant='"none"', MaxSpine='2', LevelClasses='{"dict","list","tuple","obj"}',
+                     LeafOpts='{"none","edict","fset"}',
+                     SideOpts='{"shared"}', Alpha='"small"', Alpha3='"p"',
                      Profiles='{"plain","vals","miss","missval","missflag"}'),
+}
+# wildcard destinations: '*' among the parent segments, broadcast in order, partial on error
+STAR = {
+    'quick': dict(Mutant='"none"', MaxSpine='2', LevelClasses='{"dict","list"}', LeafOpts='{"none","edict"}',
+                  SideOpts='{"none"}', Alpha='"small"', Alpha3='"none"', Profiles='{"star"}'),
+    'thorough': dict(Mutant='"none"', MaxSpine='2', LevelClasses='{"dict","list","tuple","obj"}',
+                     LeafOpts='{"none","str","edict"}', SideOpts='{"none"}', Alpha='"small"', Alpha3='"none"',
+                     Profiles='{"star"}'),
 }
 # second, deeper-alphabet universe of the thorough tier (shallower targets)
 THOROUGH_WIDE = dict(Mutant='"none"', MaxSpine='1', LevelClasses=_ALL,
-                     LeafOpts='{"none","str","edict","elist","fset"}',
-                     SideOpts='{"absent","none","shared","empty"}', Alpha='"full"', Alpha3='"small"',
+                     LeafOpts='{"str","elist"}',
+                     SideOpts='{"absent","shared","empty"}', Alpha='"full"', Alpha3='"p"',
                      Profiles='{"plain","vals","miss","missval","missflag"}')
 MUTANT_UNIVERSE = dict(MaxSpine='1', LevelClasses='{"dict","list","obj"}', LeafOpts='{"none","edict"}',
                        SideOpts='{"absent","shared"}', Alpha='"small"', Alpha3='"p"',
                        Profiles='{"plain","miss","missflag"}')
+COVERAGE_UNIVERSE = dict(MaxSpine='1', LevelClasses='{"dict"}', LeafOpts='{"edict"}', SideOpts='{"absent"}',
+                         Alpha='"small"', Alpha3='"p"', Profiles='{"miss"}')
 MUTANTS = {'attach_first': ('NoEarlyWrite', 'AttachLast', 'Outcome'),
            'factory_per_segment': ('FactoryLaw',),
            'replace_existing': ('Outcome', 'NeverReplaced', 'ReadBack')}
-NRANDOM = {'quick': 6000, 'thorough': 120000}
+NRANDOM = {'quick': 6000, 'thorough': 60000}
 
 ASSUMPTIONS = [
     'container classes dict / list / tuple / frozenset / set / attribute objects; OrderedDict is excluded '
@@ -57,7 +67,9 @@ ASSUMPTIONS = [
     'property, raising factory); at most one faulty cell per case',
     'the class of the escaping error is only compared where the documentation names it (PathAccessError for a '
     'missing parent without missing=); other classes are recorded as drift against the mechanism model',
-    'wildcard destinations (* / **) are not in this universe (their enumeration is C14\'s subject)',
+    'wildcards: only * (not **), only among the parent segments and without missing=; a failing match ends the '
+    'broadcast with the earlier matches assigned (no atomicity is claimed for wildcard paths); sets are never '
+    'enumerated by a wildcard (iteration order)',
     'TLC, the Json community module and the codec are trusted',
 ]
 
@@ -83,18 +95,22 @@ def _diff_positions(exp_heap, obs_heap):
     return out
 
 
-def match_finding(f, info):
-    """Known findings of C11 (narrow: call site + input predicate + the exact deviation)."""
-    m = f.get('match', {})
-    case, exp, obs = info.get('case'), info.get('exp'), info.get('obs')
-    if not case or case.get('kind') != 'assign' or not obs:
+def _copied_value(info):
+    case, exp, obs = info['case'], info.get('exp'), info['obs']
+    rebuilt = ('set', 'frozenset') if info.get('logging', True) else ('dict', 'list', 'tuple', 'set', 'frozenset')
+    if not (case['missing'] != 'none' and case['val']['k'] in ('spec', 't') and info.get('clause') == 'heap-effect'
+            and obs['ok'] and obs.get('nfac', 0) >= 1):
         return False
-    if m.get('kind') == 'missing-copies-value':
-        # Assign.glomit re-evaluates the already evaluated value with arg_val() in the nested
-        # Assign of the missing= branch: a dict / list / tuple obtained through Spec / T is rebuilt
-        if not (case['missing'] != 'none' and case['val']['k'] in ('spec', 't') and not info.get('logging', True)
-                and info.get('clause') == 'heap-effect' and exp['ok'] and obs['ok'] and obs.get('nfac', 0) >= 1):
+    # the value the spec denotes (abstract walk over the recorded heap)
+    v = case['root']
+    for st in case['val']['steps']:
+        v = lib.abstract_step(case['heap0'], v, st)
+        if v is None:
             return False
+    if v['k'] != 'ref' or case['heap0'][v['a'] - 1]['cls'] not in rebuilt:
+        return False
+    vcls = case['heap0'][v['a'] - 1]['cls']
+    if exp is not None:
         diffs = _diff_positions(exp['heap'], obs['heap'])
         if not diffs:
             return False
@@ -103,146 +119,65 @@ def match_finding(f, info):
             yv = y[1] if isinstance(y, list) else y
             if isinstance(x, list) and x[0] != y[0]:
                 return False
-            if not (xv.get('k') == 'ref' and yv.get('k') == 'opaque' and yv.get('s') in ('dict', 'list', 'tuple')
-                    and exp['heap'][xv['a'] - 1]['cls'] == yv['s']):
+            if not (xv == v and yv.get('k') == 'opaque' and yv.get('s') == vcls):
                 return False
         return True
+    # recorded row (no expectation at hand): exactly one unknown object of the value's class is stored,
+    # and nothing refers to the value where the unknown object sits
+    unknown = [it for c in obs['heap'] for it in c['items']
+               for x in ([it[1]] if isinstance(it, list) and len(it) == 2 and isinstance(it[0], dict) and c['cls'] in ('dict', 'obj') else [it])
+               if isinstance(x, dict) and x.get('k') == 'opaque']
+    return len(unknown) == 1 and all((u[1] if isinstance(u, list) else u).get('s') == vcls for u in unknown)
+
+
+def match_finding(f, info):
+    """Known findings of C11 (narrow: call site + input predicate + the exact deviation)."""
+    m = f.get('match', {})
+    case, exp, obs = info.get('case'), info.get('exp'), info.get('obs')
+    if not case or case.get('kind') != 'assign' or not obs:
+        return False
+    if m.get('kind') == 'missing-copies-value':
+        # Assign.glomit re-evaluates the already evaluated value with arg_val() in the nested
+        # Assign of the missing= branch: a value of exact type dict / list / tuple / set / frozenset
+        # obtained through Spec / T is rebuilt (the logging classes are subclasses, except sets)
+        return _copied_value(info)
     if m.get('kind') == 'sroot-missing-loses-value':
         # an S-rooted destination with missing=: the remaining path keeps the S root, so the nested
         # Assign writes into the scope instead of the new container
-        return (info.get('spelling', '').startswith('S-') and case['missing'] != 'none' and exp['ok']
+        return (info.get('spelling', '').startswith('S-') and case['missing'] != 'none'
                 and obs.get('nfac', 0) >= 1 and info.get('clause') in m.get('clauses', ['heap-effect']))
     return False
-
-
-def run_universe(check, consts, label):
-    res = vlib.run_tlc(MC, cfg=MC, constants=consts, coverage=(label == 'quick'))
-    vlib.tlc_must_pass(res, '%s machine %s' % (MC, label))
-    check.add_tlc(res, '%s machine [%s]' % (MC, label))
-    if label == 'quick':
-        need = ['A_EvalVal', 'A_FetchParent', 'A_FactoryCall', 'A_BuildTail', 'A_Store']
-        missing = [a for a in need if not res['coverage'].get(a)]
-        if missing:
-            raise vlib.MachineryError('actions never taken: %s (coverage %s)' % (missing, res['coverage']))
-    res2, results = vlib.map_states(MC, lib.worker, cfg=MC + '_cases', constants=consts)
-    check.add_tlc(res2, '%s cases [%s]' % (MC, label))
-    log_rows = []
-    drift = 0
-    for r in results:
-        check.cov['evaluations'] += r['n']
-        check.cov['distinct_nontrivial'] += r['nontrivial']
-        badcases = {json.dumps(b['case']['case'], sort_keys=True) for b in r['bad']}
-        check.validated(r['cases'] - len(badcases))
-        for s in r['samples']:
-            check.sample(s)
-        for b in r['bad']:
-            check.violation(b['case'], b['why'], matcher=match_finding)
-        drift += r['drift_cls']
-        for d in r['drift_samples']:
-            check.extra.setdefault('drift_class_samples', [])
-            if len(check.extra['drift_class_samples']) < 5:
-                check.extra['drift_class_samples'].append(d)
-        log_rows += r['log_rows']
-    check.extra['drift_error_class'] = check.extra.get('drift_error_class', 0) + drift
-    return log_rows
-
-
-def validate(check, rows, label):
-    """Rows through the Trace module; law clauses are violations, drift- clauses are counted."""
-    if not rows:
-        return
-    slim = [dict(case=r['case'], obs=r['obs']) for r in rows]
-    rejects = vlib.validate_rows(check, TRACE, slim, label, chunk=4000)
-    for (row, rej) in rejects:
-        if rej['clause'].startswith('drift-'):
-            check.extra['drift_' + label] = check.extra.get('drift_' + label, 0) + 1
-            check.validated(1)
-            if len(check.extra.setdefault('drift_samples', [])) < 3:
-                check.extra['drift_samples'].append(dict(clause=rej['clause'], steps=row['case']['steps'],
-                                                         log=row['obs']['log']))
-            continue
-        full = next((r for r in rows if r['case'] is row['case']), None) or row
-        info = dict(case=row['case'], obs=row['obs'], exp=None, spelling=full.get('spelling', ''), logging=True,
-                    clause=rej['clause'], direction='code->spec')
-        check.violation(info, 'recorded execution rejected by the specification: clause %s' % rej['clause'],
-                        matcher=match_finding_rows)
 
 
 def match_finding_rows(f, info):
     # findings about S-rooted destinations can also show up in recorded rows
     m = f.get('match', {})
     case, obs = info['case'], info['obs']
+    if m.get('kind') == 'missing-copies-value':
+        return _copied_value(info)
     if m.get('kind') == 'sroot-missing-loses-value':
         return (info.get('spelling', '').startswith('S-') and case['missing'] != 'none'
                 and obs.get('nfac', 0) >= 1 and info['clause'] in m.get('clauses', ['heap-effect']))
     return False
 
 
-def run_mutants(check):
-    got = {}
-    for name, laws in MUTANTS.items():
-        consts = dict(MUTANT_UNIVERSE, Mutant='"%s"' % name)
-        res = vlib.run_tlc(MC, cfg=MC, constants=consts)
-        got[name] = res['violated']
-        if res['violated'] not in laws:
-            raise vlib.MachineryError('spec mutant %s: expected one of %s violated, TLC says %r'
-                                      % (name, laws, res['violated']))
-    check.extra['spec_mutants_violate'] = got
+DRIVER = lib.Driver(PROP, KIND, MC, TRACE,
+                    need=['Choose', 'A_EvalVal', 'A_FetchParent', 'A_FactoryCall', 'A_BuildTail', 'A_Store'],
+                    match=match_finding, match_rows=match_finding_rows,
+                    mutants=MUTANTS, mutant_universe=MUTANT_UNIVERSE, coverage_universe=COVERAGE_UNIVERSE)
+
+RULE = ('TLC enumerates every (target spine, destination path, value, missing factory, fault plan) within the '
+        'constants and explores every step of the machine; each terminal case is replayed in every spelling on '
+        'plain and on write-logging containers; non-trivial = a write is attempted or the call succeeds; '
+        'distinct by TLC state fingerprint')
 
 
 def main(tier, seed):
-    check = vlib.Check(PROP, tier, seed)
-    consts = TIERS[tier]
-    log_rows = run_universe(check, consts, tier)
-    universes = [consts]
+    universes = [(tier, TIERS[tier]), (tier + '-star', STAR[tier], tier == 'thorough')]
     if tier == 'thorough':
-        log_rows += run_universe(check, THOROUGH_WIDE, 'thorough-wide')
-        universes.append(THOROUGH_WIDE)
-        run_mutants(check)
-    check.extra['replays_with_other_write_log'] = len(log_rows)
-    validate(check, log_rows[:20000], 'replay-logs')
-    rng = random.Random(seed * 7919 + 11)
-    rows = lib.record_rows(rng, NRANDOM[tier], KIND)
-    check.extra['recorded_rows'] = len(rows)
-    check.cov['evaluations'] += len(rows)
-    for r in rows[:2]:
-        check.sample(dict(kind='recorded', case=r['case'], obs=r['obs'], spelling=r['spelling']), limit=6)
-    validate(check, rows, 'random')
-    check.extra['constants'] = universes
-    check.assumptions += ASSUMPTIONS
-    return check.finish(
-        rule='TLC enumerates every (target spine, destination path, value, missing factory, fault plan) within the '
-             'constants and explores every step of the machine; each terminal case is replayed in every spelling on '
-             'plain and on write-logging containers; non-trivial = a write is attempted or the call succeeds; '
-             'distinct by TLC state fingerprint',
-        exhaustive=True)
+        universes.append(('thorough-wide', THOROUGH_WIDE))
+    return DRIVER.main(tier, seed, universes, NRANDOM[tier], ASSUMPTIONS, RULE)
 
 
 def replay(path):
-    with open(path) as f:
-        v = json.load(f)
-    info = v['case']
-    case = info['case']
-    print('case:', json.dumps({k: case[k] for k in ('kind', 'root', 'steps', 'val', 'missing', 'facfail', 'ignore', 'flags')}))
-    print('heap0:', json.dumps(case['heap0']))
-    bad = 0
-    for logging in ((info.get('logging', True),)):
-        for sp in lib.spellings(case['steps']):
-            if info.get('spelling') and sp[0] != info['spelling']:
-                continue
-            obs = lib.run_case(case, sp, logging)
-            print('spelling=%s logging=%s observed: ok=%s cls=%s v=%s nfac=%s' % (sp[0], logging, obs['ok'], obs['cls'], obs['v'], obs['nfac']))
-            print('  heap:', json.dumps(obs['heap']))
-            print('  log :', json.dumps(obs['log']))
-            if info.get('exp'):
-                clause = lib.conform_clause(case, info['exp'], obs)
-                print('  expected: %s' % json.dumps({k: info['exp'][k] for k in ('ok', 'err', 'lenient', 'v')}))
-                print('  clause: %r' % clause)
-                bad += bool(clause)
-            else:
-                check = vlib.Check(PROP, 'replay', 0)
-                rej = vlib.validate_rows(check, TRACE, [dict(case=case, obs=obs)], 'replay')
-                real = [r for r in rej if not r[1]['clause'].startswith('drift-')]
-                print('  specification verdict: %s' % ([r[1]['clause'] for r in rej] or 'accepted'))
-                bad += bool(real)
-    return 1 if bad else 0
+    return DRIVER.replay(path)
